@@ -38,6 +38,7 @@ n5 := 5.bear(oo)
 sa := "a".bear(oo)
 mp := %{"len": 5, "foo": 6}
 idf := {|x| "vc".p; x}
+altf := {|e| "alternative called".p; 5}
 ew := 1.try./(0).err
 ev := 5.try
 ee := 5.try./(0)
@@ -73,6 +74,9 @@ func alphabet() []step {
 	for i, k := range errKinds {
 		a = append(a, step{Src: fmt.Sprintf(`.{|x| "s".p; raise %s.new("m%d")}`, k, i)})
 	}
+	// the same error kind with other messages, raised by the interpreter itself and by the program (what was captured is
+	// THIS error, not an earlier one of its kind)
+	a = append(a, step{Src: `.{|x| []._iter.next}`}, step{Src: `.{|x| raise StopIterErr.new("custom stop")}`}, step{Src: `.{|x| raise ZeroDivisionErr.new("custom zero")}`}, step{Src: `.{|x| nil.zz_c13_other}`})
 	return a
 }
 
@@ -140,6 +144,8 @@ var accessors = []accessor{
 		}
 		return v, "", ""
 	}},
+	// the alternative is handed back as it is, also when it is a function (it is not called)
+	{".or(altf) == altf", func(e bool, v, k, m string) (string, string, string) { return fmt.Sprint(e), "", "" }},
 	{".val?", func(e bool, v, k, m string) (string, string, string) { return fmt.Sprint(!e && v != "nil"), "", "" }},
 	{".err?", func(e bool, v, k, m string) (string, string, string) { return fmt.Sprint(e), "", "" }},
 	{".catch(TypeErr) {|e| 77}.A", func(e bool, v, k, m string) (string, string, string) {
@@ -354,7 +360,7 @@ type pair struct {
 func genAgain(emit func(tcase)) {
 	recvs := []string{"5", `"a"`, "[1, 2]", "nil", "oo"}
 	alpha := reducedAlphabetQuick()
-	accs := []int{0, 2, 3, 5} // .val .A .or(99) .err?
+	accs := []int{0, 2, 3, 6} // .val .A .or(99) .err?
 	var chains [][]step
 	for _, s1 := range alpha {
 		if s1.Obj {
